@@ -62,9 +62,15 @@ struct Model { blocks: Vec<Vec<Op>>, edges: Vec<(usize, usize, Guard)> }
 
 fn build(m: &Model) -> Function {
     let mut cfg = ControlFlowGraph::new();
+    // every other function is built with instruction indices that differ from positions (a leading nop is pushed
+    // and removed again), so that index / position confusions show up
+    static BUILDS: std::sync::atomic::AtomicUsize = std::sync::atomic::AtomicUsize::new(0);
+    let shifted = BUILDS.fetch_add(1, std::sync::atomic::Ordering::Relaxed) % 2 == 1;
     for ops in &m.blocks {
         let b = cfg.new_block().unwrap();
+        if shifted { b.nop(); }
         for op in ops { push_op(b, *op); }
+        if shifted { b.remove_instruction(0).unwrap(); }
     }
     for (h, t, g) in &m.edges {
         match g {
